@@ -185,6 +185,18 @@ class PyModule(object):
             scope = getattr(scope, '_parent', None)
         return cands[0] if len(cands) == 1 else None
 
+    def literal(self, node):
+        """the display a node stands for: itself, or -- for a name bound once at module level -- that binding's value"""
+        seen = 0
+        while isinstance(node, ast.Name) and seen < 4:
+            binds = [s_ for s_ in self.tree.body if isinstance(s_, (ast.Assign, ast.AnnAssign)) and any(
+                isinstance(t, ast.Name) and t.id == node.id for t in (s_.targets if isinstance(s_, ast.Assign) else [s_.target]))]
+            if len(binds) != 1 or binds[0].value is None:
+                return node
+            node = binds[0].value
+            seen += 1
+        return node
+
     def functions(self, top_only=True):
         out = []
         for node in (self.tree.body if top_only else ast.walk(self.tree)):
